@@ -156,6 +156,18 @@ func (visitor) Visit(n ast.Node) ast.Visitor {
 		walkClauses(v.Body)
 		prioritiseDone(v)
 		return nil
+	case *ast.CallExpr:
+		// once.Do(func() { ... }): the callback runs while sync.Once holds its (real) mutex. A task parked by the
+		// scheduler in there would leave a second caller blocked on that mutex - not a durable block for synctest, so
+		// the scheduler's Wait() would never return. No yield points inside such a callback: never park while a real
+		// lock is held.
+		if se, ok := v.Fun.(*ast.SelectorExpr); ok && se.Sel.Name == "Do" && len(v.Args) == 1 {
+			if _, ok := v.Args[0].(*ast.FuncLit); ok {
+				ast.Walk(visitor{}, v.Fun)
+				return nil
+			}
+		}
+		return visitor{}
 	case *ast.BlockStmt:
 		// children first (on the original statements), then insert.
 		for _, s := range v.List {
